@@ -329,6 +329,103 @@ func runC20(ctx *harness.Ctx) {
 		ctx.Sample(map[string]any{"text": q(text), "pos": pos, "end": end})
 		ctx.Check(t, cs, oracleC20(ctx, cs))
 	})
+	// bytes that differ from '\n' in one bit or by one (0x0B, 0x09, 0x8A, 0x2A ...), CR, NEL, NUL, 0xFF, dense around newlines;
+	// every position of every text, texts long enough to span several machine words
+	neighbours := []byte{0x0b, 0x0b, 0x09, 0x0c, 0x0d, 0x08, 0x0e, 0x8a, 0x1a, 0x2a, 0x4a, 0x0a ^ 0x01, 0x0a ^ 0x02, 0x0a ^ 0x04, 0x00, 0xff, 0x85, 0xc2, 0x7f, 0x80}
+	ctx.Rapid("newline-neighbours", ctx.Pick(1500, 30000), func(t *rapid.T) {
+		k := rapid.IntRange(1, 48).Draw(t, "n")
+		buf := make([]byte, 0, k)
+		for i := 0; i < k; i++ {
+			switch c := rapid.IntRange(0, 9).Draw(t, "class"); {
+			case c < 4:
+				buf = append(buf, '\n')
+			case c < 7:
+				buf = append(buf, neighbours[rapid.IntRange(0, len(neighbours)-1).Draw(t, "neighbour")])
+			case c < 8:
+				buf = append(buf, rapid.Byte().Draw(t, "byte"))
+			default:
+				buf = append(buf, 'a')
+			}
+		}
+		text := string(buf)
+		extra := rapid.IntRange(0, len(text)).Draw(t, "end")
+		for pos := 0; pos <= len(text); pos++ {
+			end := pos
+			if extra > pos && pos%5 == 0 {
+				end = extra
+			}
+			cs := &harness.Case{Leg: "newline-neighbours", Input: text, Aux: map[string]string{"pos": strconv.Itoa(pos), "end": strconv.Itoa(end)}}
+			ctx.Eval(1)
+			if c20NonTrivial(text, pos, end) {
+				ctx.NonTrivial(harness.Hash(text, cs.Aux["pos"], cs.Aux["end"]))
+			}
+			if !ctx.Check(t, cs, oracleC20(ctx, cs)) {
+				return
+			}
+		}
+	})
+	// many lines: line counts around 10 / 100 / 1000 / 10000 (gutter width), 64 / 128 / 256 / 1024 / 4096 / 65536 (tables, caches);
+	// positions on the first, the last and the boundary lines; single-line and multi-line ranges
+	ctx.Rapid("many-lines", ctx.Pick(250, 4000), func(t *rapid.T) {
+		n := rapid.SampledFrom(append(append([]int{}, manyLineCounts...), 9998, 9999, 10000, 10001, 65535, 65536, 65537)).Draw(t, "lines")
+		if rapid.IntRange(0, 4).Draw(t, "free-lines") == 0 {
+			n = rapid.IntRange(1, 1200).Draw(t, "n-lines")
+		}
+		line := rapid.SampledFrom([]string{"", "a", "ab", "SELECT 1;", "é", "\r", "x\v"}).Draw(t, "line")
+		var b strings.Builder
+		starts := make([]int, 0, n+1)
+		for i := 0; i < n; i++ {
+			starts = append(starts, b.Len())
+			b.WriteString(line)
+			if i%7 == 3 {
+				b.WriteString("zz")
+			}
+			b.WriteByte('\n')
+		}
+		starts = append(starts, b.Len())
+		if rapid.Bool().Draw(t, "last-line-unterminated") {
+			b.WriteString("tail")
+		}
+		text := b.String()
+		// a line of interest: boundary indices or any
+		cands := []int{0, 1, 8, 9, 10, 98, 99, 100, 126, 127, 128, 254, 255, 256, 998, 999, 1000, 1001, 9998, 9999, 10000, n - 2, n - 1, n}
+		li := cands[rapid.IntRange(0, len(cands)-1).Draw(t, "line-of-interest")]
+		if li < 0 || li > n || rapid.IntRange(0, 3).Draw(t, "any-line") == 0 {
+			li = rapid.IntRange(0, n).Draw(t, "any")
+		}
+		pos := starts[li]
+		if pos < len(text) {
+			pos += rapid.IntRange(0, min(3, len(text)-pos)).Draw(t, "col")
+		}
+		end := pos
+		switch rapid.IntRange(0, 4).Draw(t, "range") {
+		case 0:
+		case 1:
+			end = pos + rapid.IntRange(0, min(12, len(text)-pos)).Draw(t, "span")
+		case 2, 3:
+			lj := min(n, li+rapid.IntRange(1, 3).Draw(t, "lines-spanned"))
+			end = max(pos, starts[lj])
+		default:
+			end = len(text)
+			if end-pos > 4000 {
+				end = pos + 4000
+			}
+		}
+		cs := &harness.Case{Leg: "many-lines", Input: text, Aux: map[string]string{"pos": strconv.Itoa(pos), "end": strconv.Itoa(end)}}
+		ctx.Eval(1)
+		ctx.Class(fmt.Sprintf("many-lines:digits-%d", len(strconv.Itoa(li+1))))
+		ctx.NonTrivial(harness.Hash(text, cs.Aux["pos"], cs.Aux["end"]))
+		ctx.Check(t, cs, oracleC20(ctx, cs))
+	})
+	ctx.Rapid("errors-many-lines", ctx.Pick(150, 2500), func(t *rapid.T) {
+		src, where := drawManyLines(t)
+		en := rapid.SampledFrom(c03Entries).Draw(t, "entry")
+		cs := &harness.Case{Leg: "errors", Entry: en, Input: src}
+		ctx.Eval(1)
+		ctx.Class("errors-many-lines:" + where)
+		ctx.NonTrivial(harness.Hash(en, src))
+		ctx.Check(t, cs, oracleC20(ctx, cs))
+	})
 	ctx.Rapid("errors", ctx.Pick(6000, 80000), func(t *rapid.T) {
 		var src string
 		switch rapid.IntRange(0, 2).Draw(t, "kind") {
